@@ -366,6 +366,13 @@ def audit_axioms(prop_id):
     return True, {'axioms': axioms, 'theorems': names, 'modules': modnames}
 
 
+def leanchecker(prop_id):
+    """thorough tier: re-check the compiled theorem modules with the toolchain's independent checker"""
+    mods = [m for m, _ in theorem_modules(prop_id)]
+    p = subprocess.run(['lake', 'env', 'leanchecker'] + mods, cwd=LEAN_DIR, capture_output=True, text=True)
+    return p.returncode == 0, {'modules': mods, 'log': (p.stdout + p.stderr)[-1500:]}
+
+
 # ----------------------------------------------------------------------------- reporting
 
 def load_known_findings():
